@@ -27,7 +27,7 @@ import traceback
 from pathlib import Path
 
 VERIF = Path(__file__).resolve().parents[2]
-LEAN_DIR = VERIF / "lean"
+LEAN_DIR = Path(os.environ.get("EKW_LEAN_DIR", str(VERIF / "lean")))
 REPO = Path(os.environ.get("EKW_REPO", "/repo"))
 EVIDENCE_DIR = VERIF / "evidence"
 REPLAY_DIR = VERIF / "replays"
@@ -57,7 +57,7 @@ class InfraError(Exception):
 
 class _LakeLock:
     def __enter__(self):
-        self.f = open(VERIF / ".lake.lock", "w")
+        self.f = open(LEAN_DIR / ".lake.lock", "w")
         fcntl.flock(self.f, fcntl.LOCK_EX)
         return self
 
@@ -220,9 +220,12 @@ class Ctx:
 # --------------------------------------------------------------------------- known findings
 
 def load_known():
-    if not KNOWN_FILE.exists():
-        return []
-    return json.loads(KNOWN_FILE.read_text()).get("findings", [])
+    out = []
+    if KNOWN_FILE.exists():
+        out += json.loads(KNOWN_FILE.read_text()).get("findings", [])
+    for f in sorted((VERIF / "known").glob("*.json")) if (VERIF / "known").is_dir() else []:
+        out += json.loads(f.read_text()).get("findings", [])   # per-property fragments (merged into known_findings.json by hand)
+    return out
 
 
 def match_known(prop, signature, known):
